@@ -138,6 +138,18 @@ def check_case(names, endian, align, ptr, res: JobResult, tier="quick", cuts=Tru
                     exc=o.sig, case={"input": inp.data.hex()},
                 )
         res.outcomes.add((a.ok, b.ok))
+        # the same input behind a prefix (stream not at 0): still a pure differential.  Only positions that are multiples of every alignment:
+        # an aligned structure at an unaligned position is outside what the library defines (C09's "aligned p"; on the pinned tree the two
+        # readers already disagree there because tail padding is computed from the absolute position)
+        if inp.label in ("base", "raw:0") and a.ok and b.ok:
+            for p in (16,):
+                d = b"\x5a" * p + inp.data
+                pa, pb = sc.parse(TI, d, p), sc.parse(TC, d, p)
+                res.transitions += 2
+                res.evaluations += 1
+                if pa.ok != pb.ok or (pa.ok and (not same(pa.value, pb.value) or pa.tell != pb.tell or any(pa.sizes.get(k, 0) != pb.sizes.get(k, 0) for k in set(pa.sizes) | set(pb.sizes)))):
+                    viol("offset:readers-differ", f"{text!r} in={hexin} at stream offset {p}: interp={(pa.value, pa.tell) if pa.ok else pa.sig} compiled={(pb.value, pb.tell) if pb.ok else pb.sig}",
+                         case={"input": inp.data.hex(), "offset": p})
         # every cut point of model-encoded inputs
         if cuts and inp.vals is not None and inp.status == "ok" and (inp.label == "base" or tier == "thorough"):
             n = min(inp.consumed, 64)
